@@ -1894,6 +1894,9 @@ class MainProvider(ResolverMixin, BaseProvider):
         for inst in instance_store.iter_values():
             for prop in inst.properties.values():
                 if prop.type == 'reference':
+                    # A NULL reference end does not reference any instance
+                    if prop.value is None:
+                        continue
                     # Does this prop instance name match target inst name
                     if prop.value == instname:
                         if result_class:
@@ -2000,6 +2003,9 @@ class MainProvider(ResolverMixin, BaseProvider):
             inst = self._get_bare_instance(ref_path, instance_store)
             for prop in inst.properties.values():
                 if prop.type == 'reference':
+                    # A NULL reference end has no associated instance
+                    if prop.value is None:
+                        continue
                     if prop.value == inst_name:
                         if assoc_class \
                                 and inst.classname.lower() not in assoc_classes:
